@@ -589,7 +589,7 @@ fn snapshot(name: &str) {
 
 fn quiesce() {
     let t0 = sys::now_us();
-    while sys::thread_count() > 2 && sys::now_us() - t0 < 5_000_000 {
+    while sys::thread_count() > 2 && sys::now_us() - t0 < 20_000_000 {
         sys::sleep_us(200);
     }
     snapshot("quiesce");
